@@ -19,6 +19,11 @@ if [ -x build/fixtures/stubcmd ]; then
   cp build/fixtures/stubcmd build/fixtures/bin/git
   cp build/fixtures/stubcmd build/fixtures/bin/rg
 fi
+# stub pagers: a directory with `less` (to be put first in PATH) and differently named pagers
+mkdir -p build/fixtures/pagers
+if [ -x build/fixtures/stubpager ]; then
+  for n in less mypager otherpager batpager envpager; do cp build/fixtures/stubpager build/fixtures/pagers/$n; done
+fi
 python3 - <<'PY'
 import sys
 sys.path.insert(0, ".")
